@@ -444,6 +444,7 @@ func registerIntrinsics(P *Program) {
 	}
 
 	registerSyncIntrinsics(P)
+	registerOSIntrinsics(P)
 	registerTimeIntrinsics(P)
 }
 
